@@ -1334,6 +1334,20 @@ Section AllSchedules.
     intros H Heq Hin Hlt. destruct (Inv_reach p sched H) as (_ & _ & HC).
     destruct (c_L _ HC _ _ _ _ Heq _ _ _ _ Hin Hlt) as (_ & _ & Hd). exact Hd.
   Qed.
+  (* ... and at every later moment -- in particular when the cancel returns (l1 = []) -- EVERY event sent
+     under that sendid and not yet due is gone from _callbackData, is not in a running callback and
+     has not been delivered.  Nothing restricts how many sends share the sendid: [wf_prog] only asks
+     for distinct UUIDs. *)
+  Lemma cancel_removes_all_lemma p sched l1 sid tc l2 :
+    wf_prog p = true ->
+    let s := run v pick (init p) sched in
+    trace s = l1 ++ ECancelDone sid tc :: l2 ->
+    forall u tgt enq d, In (ESend u sid tgt enq d) l2 -> tc < enq + d ->
+      lookup (pending s) u = None /\ tpc_on (tpc s) <> Some u /\ ~ In u (delivered (trace s)).
+  Proof.
+    intros H s Heq u tgt enq d Hin Hlt. destruct (Inv_reach p sched H) as (_ & _ & HC).
+    exact (c_L _ HC _ _ _ _ Heq _ _ _ _ Hin Hlt).
+  Qed.
 End AllSchedules.
 
 (* the instantiated choice function satisfies the assumption (so the theorems are not vacuous) *)
